@@ -15,23 +15,25 @@ PROP = {
                  "compute_dominance_frontiers_correct", "unreachable_excluded", "pre_order_search_order",
                  "topo_correct", "topo_error_iff_cycle", "is_acyclic_iff", "post_order_correct", "is_reducible_correct", "pre_order_is_dfs", "compute_loops_correct", "compute_loop_tree_correct", "transitive_preds_correct",
                  "compute_dfs_tree_correct", "compute_acyclic_correct", "pre_order_is_dfs_spec", "pre_order_check_sound", "post_order_check_sound",
-                 "dfs_tree_check_sound", "acyclic_graph_check_sound", "snca_numbering", "dfs_edge_lemma", "path_lemma", "sd_cand_edge", "sd_cand_up", "sdom_recurrence", "dom_anc", "idom_anc_cand", "cand_anc", "dom_between", "nca_step"],
-    "rule": "every digraph on 1, 2, 3 vertices x every root (1570 cases, on three of every four positions up to position 2094); the other positions: 70% random digraphs (1-14 vertices, contiguous / sparse / random 64-bit ids, "
+                 "dfs_tree_check_sound", "acyclic_graph_check_sound", "snca_numbering", "dfs_edge_lemma", "path_lemma", "sd_cand_edge", "sd_cand_up", "sdom_recurrence", "dom_anc", "idom_anc_cand", "cand_anc", "dom_between", "nca_step",
+                 "idom_check_complete", "dfs_tree_pre_order", "dfs_parent_chain", "snca_correct", "dominator_tree_all", "dominators_all", "back_edges_all",
+                 "dominance_frontiers_all", "is_reducible_all", "loops_all", "loop_tree_all"],
+    "rule": "every digraph on 1, 2, 3 vertices x every root (1570 cases, on three of every four positions up to position 2094), followed at every seed by 30 fixed cases (graphs and edit histories with vertex id usize::MAX = 2^64-1 as vertex / root / DFS-tree parent, 2-cycles a<->b, removal of a vertex whose neighbour is both successor and predecessor); the other positions: 70% random digraphs (1-14 vertices, contiguous / sparse / random 64-bit ids, "
             "sparse/dense/spine/DAG shapes, forced self-loops, two-entry cycles, root inside a loop, unreachable components, 2.5% roots outside the graph) on which "
             "every public algorithm is run, 30% edit histories of 1-40 insert/remove operations over a pool of 2-6 ids with all public views dumped after each step; "
             "non-trivial = graph with a cycle, an unreachable vertex or >= 4 vertices / history with a failing operation or a removal of a vertex with incident edges; "
             "distinct by canonical input text",
     "trusted_base": [KERNEL, HARNESS_TB, "std BTreeMap/BTreeSet/FxHashMap taken to be finite maps/sets (ascending iteration for BTree*)"],
     "assumptions": ["vertex ids range over usize (modelled as N); graphs are built through the public insert/remove API"],
-    "partial": ["unbounded correctness of Semi-NCA itself is not proved: covered per output by the verified validator idom_check [V] and on all digraphs with <= 3 vertices [F] "
-                "(4 vertices: Graph/SemiNca4.v, 42 min build, coq_targets_thorough); every unbounded dominator/frontier/back-edge/reducibility theorem about the model is conditional on idom_check of the model's idom map",
-                "compute_dfs_tree and compute_acyclic have no unbounded theorem about the model functions (tie + oracle per case, [F] n <= 3)",
-                "pre-order / DFS-tree / compute_acyclic oracles check conditions of the definitions without a soundness theorem (any DFS child order accepted); the exact order is fixed only by the tie",
+    "partial": ["Semi-NCA and every theorem depending on it are proved for graphs with at most usize::MAX vertices (hypothesis N.of_nat (length (vertex_indices g)) <= usize_max of snca_correct: "
+                "the semidominator minimum starts from usize::MAX as in the Rust code, so DFS numbers must not exceed it; a real Graph cannot hold more entries)",
+                "the executable oracles accept any DFS child order (each has a soundness theorem against Graph/Spec.v / SpecDfs.v); the exact order the Rust code produces is fixed only by the tie",
                 "native recursion depth (stack overflow on very long paths) is not modelled"],
     "level_text": "Unbounded Coq theorems about the Gallina model of falcon::graph: the four views of Graph<V,E> stay mutually consistent under every sequence of insert/remove operations (failing ones included, never a panic); "
-                  "reachable/unreachable/remove_unreachable_vertices, pre-order (permutation + search order), post-order (valid DFS finishing order), pre-order is a DFS pre-order (relational), transitive predecessors, topological ordering (Ok = topological order, Err iff cycle), is_acyclic are correct; given that the model's idom map passes the validator idom_check: dominator tree, dominator sets, back edges, dominance frontiers (incl. start node) is_reducible (Hecht-Ullman), natural loops and the loop nesting graph are correct and unreachable vertices are excluded; immediate dominators exist and are unique; the derivations from the idom map (dominator sets, dominance frontiers incl. the start node, back edges) are correct; "
-                  "verified validators (idom_check and ten more) whose acceptance implies the textbook relational definition, evaluated in the kernel on every result the Rust code returns; "
+                  "reachable/unreachable/remove_unreachable_vertices, pre-order (permutation + search order), post-order (valid DFS finishing order), pre-order is a DFS pre-order (relational), transitive predecessors, topological ordering (Ok = topological order, Err iff cycle), is_acyclic, compute_dfs_tree (spanning tree of the reachable subgraph, its pre-order is the DFS pre-order of the graph), compute_acyclic are correct; "
+                  "Semi-NCA is proved for ALL graphs (snca_correct: the model of compute_immediate_dominators returns exactly the textbook immediate-dominator relation, by DFS path lemma, semidominator recurrence, link-eval path compression invariant and the NCA step), hence dominator tree, dominator sets, back edges, dominance frontiers (incl. start node), is_reducible (Hecht-Ullman), natural loops and the loop nesting graph of the model are correct unconditionally and unreachable vertices are excluded; immediate dominators exist and are unique; "
+                  "verified validators (idom_check, sound and complete, and fourteen more, each with a soundness theorem -- no oracle is unverified) whose acceptance implies the textbook relational definition, evaluated in the kernel on every result the Rust code returns; "
                   "finite-domain theorems (all digraphs on <= 3 vertices x all roots) for Semi-NCA and for all 17 routines of the model; plus the in-kernel differential tie model = code on generated graphs and edit histories.",
     "level_note": "Trusted: Coq kernel + vm_compute; the harness/pretty-printer; std BTreeMap/FxHashMap as finite maps; the model is hand-written and tied to the code differentially. "
-                  "Semi-NCA correctness for all graphs is [V] per output + [F] small scope, not [U].",
+                  "Semi-NCA correctness is [U] for the model (snca_correct), additionally [V] per output of the Rust code and [F] small scope.",
 }
